@@ -2,6 +2,9 @@ import ZV.Model.C13
 import ZV.Proofs.C13
 import ZV.Proofs.C13Der
 import ZV.Proofs.C13Shape
+import ZV.Generated.C03
+import ZV.Generated.C13
+import ZV.Proofs.C13Enc
 /-!
   C13 — OCSP messages round-trip and bind to the issuer's signature.
 
@@ -576,5 +579,180 @@ theorem bytes_total (tbsOf : Bytes → B) (sigOf : Bytes → Int → B) (algOf :
 /-- on concrete bytes: an error response (status 1, no responseBytes) is decoded and refused by the status test -/
 example : (parseBytes (fun (_ : Nat) _ (_ : Nat) _ => true) (fun _ => 0) (fun _ _ => 0) (fun _ => 0) (fun _ => (none : Option (ECert Nat Nat)))
     [0x30, 0x03, 0x0a, 0x01, 0x01] none none matches .ok .err) = true := by decide
+
+/-! ### T1: the tables of the model against the tables GENERATED from the working tree
+
+  `ZV.Gen.C03.ocspDetailsOid` / `ocspSignDefaults` / `verifyHash` (go/ast + run time, extractor go/extract/c03) and
+  `ZV.Gen.C13.hashOIDs` / `idPKIXOCSPBasic` (run time through the hook, extractor go/extract/c13) are rewritten from the
+  zcrypto working tree on every check run; the theorems below re-check the model's tables against them, so an edited row
+  of `signatureAlgorithmDetails`, `hashOIDs`, an arm of the type / curve switch of `signingParamsForPublicKey` or of the
+  digest switch of `x509.CheckSignatureFromKey` fails a named theorem. -/
+
+/-- `x509.PublicKeyAlgorithm` number of the generated key-algorithm name -/
+def pkaNum (s : String) : Nat :=
+  if s = "RSA" then 1 else if s = "DSA" then 2 else if s = "ECDSA" then 3 else if s = "Ed25519" then 4 else 0
+
+/-- the model's `sigDetails` IS the generated `signatureAlgorithmDetails` of ocsp.go, row for row, in order -/
+theorem sigDetails_generated :
+    sigDetails = Gen.C03.ocspDetailsOid.map (fun r => ⟨r.1, pkaNum r.2.2.1, r.2.2.2⟩) := by decide
+
+/-- the OID column: pairwise distinct OIDs and pairwise distinct `algo`s, so `getSignatureAlgorithmFromOID` (first row with
+    the OID) maps the OID written by `signingParamsForPublicKey` for a row back to that row's `algo` — the model's
+    representation of the OID column by `algo` loses nothing -/
+theorem sigDetails_oid_column_injective :
+    (Gen.C03.ocspDetailsOid.map (fun r => r.2.1)).Nodup ∧ (Gen.C03.ocspDetailsOid.map (fun r => r.1)).Nodup := by decide
+
+/-- the Go type / curve names of the arms of the type switch -/
+def kindName : KeyKind → Option String
+  | .rsa => some "*rsa.PublicKey"
+  | .p224 => some "*ecdsa.PublicKey:P224"
+  | .p256 => some "*ecdsa.PublicKey:P256"
+  | .p384 => some "*ecdsa.PublicKey:P384"
+  | .p521 => some "*ecdsa.PublicKey:P521"
+  | _ => none
+
+/-- the generated arm for a Go type name: (public-key algorithm, default digest, `algo` of the default OID) -/
+def genDefault (n : String) : Option (Nat × Nat × Nat) :=
+  match Gen.C03.ocspSignDefaults.find? (fun r => r.1 == n) with
+  | none => none
+  | some r =>
+    match Gen.C03.ocspDetailsOid.find? (fun d => d.2.1 == r.2.2.2.1) with
+    | none => none
+    | some d => some (pkaNum r.2.1, r.2.2.1, d.1)
+
+/-- the model's `defaultParams` IS the generated type / curve switch of ocsp `signingParamsForPublicKey` (every arm of the
+    model is an arm of the code with the same key algorithm, digest and OID; the code has no further arm) -/
+theorem defaultParams_generated :
+    (∀ k, defaultParams k = (match kindName k with | some n => genDefault n | none => none)) ∧
+    Gen.C03.ocspSignDefaults.map (fun r => r.1) = [KeyKind.rsa, .p224, .p256, .p384, .p521].filterMap kindName := by
+  refine ⟨fun k => ?_, by decide⟩
+  cases k <;> decide
+
+/-- NULL parameters are written exactly for the RSA arm (what `createDER` passes as `nullParams`) -/
+theorem defaultParams_null_generated :
+    Gen.C03.ocspSignDefaults.map (fun r => (r.2.1, r.2.2.2.2.1)) =
+      [("RSA", true), ("ECDSA", false), ("ECDSA", false), ("ECDSA", false), ("ECDSA", false)] := by decide
+
+/-- the model's `verifyHash` IS the generated first switch of `x509.CheckSignatureFromKey`, for EVERY algorithm number
+    (insecure and unsupported algorithms both have no digest) -/
+theorem verifyHash_generated (a : Nat) :
+    verifyHash a = (match Gen.C03.verifyHash.lookup a with | some h => h | none => none) := by
+  by_cases h : a ≤ 16
+  · have : ∀ a, a ≤ 16 → verifyHash a = (match Gen.C03.verifyHash.lookup a with | some h => h | none => none) := by decide
+    exact this a h
+  · have e : ∀ n : Nat, n ≤ 16 → (a == n) = false := fun n hn => by simp; omega
+    simp only [verifyHash, Gen.C03.verifyHash, List.lookup, e, Nat.le_refl, Nat.reduceLeDiff]
+    repeat (first | rw [if_neg (by omega)] | rfl)
+
+/-- the model's `hashOID` IS the generated `hashOIDs` map, for EVERY hash number; `hashSupported` is its key set and
+    `hashOfOID` its inverse -/
+theorem hashOID_generated (h : Nat) :
+    hashOID h = Gen.C13.hashOIDs.lookup h ∧ hashSupported h = (Gen.C13.hashOIDs.lookup h).isSome := by
+  by_cases hh : h ≤ 7
+  · have : ∀ h, h ≤ 7 → (hashOID h = Gen.C13.hashOIDs.lookup h ∧ hashSupported h = (Gen.C13.hashOIDs.lookup h).isSome) := by
+      decide
+    exact this h hh
+  · have e : ∀ n : Nat, n ≤ 7 → (h == n) = false := fun n hn => by simp; omega
+    simp only [hashOID, hashSupported, Gen.C13.hashOIDs, List.lookup, e, Nat.le_refl, Nat.reduceLeDiff]
+    refine ⟨?_, ?_⟩
+    · repeat (first | rw [if_neg (by omega)] | rfl)
+    · simp; omega
+
+theorem hashOfOID_generated :
+    (∀ r ∈ Gen.C13.hashOIDs, hashOfOID r.2 = r.1 ∧ r.1 ≠ 0) ∧
+    (∀ o, hashOfOID o ≠ 0 → (hashOfOID o, o) ∈ Gen.C13.hashOIDs) := by
+  refine ⟨by decide, fun o ho => ?_⟩
+  unfold hashOfOID at ho ⊢
+  split_ifs at ho ⊢ with h1 h2 h3 h4 <;> first | (subst_vars; decide) | exact absurd rfl ho
+
+/-- `idBasic` IS the generated `idPKIXOCSPBasic` -/
+theorem idBasic_generated : idBasic = Gen.C13.idPKIXOCSPBasic := by decide
+
+/-! ### the ENCODING side of `CreateResponse` (ZV.Model.C13Enc; tied to the real function byte for byte by T2 `c13 enc`) -/
+
+/-- **times, to the second**: for every instant whose UTC year is 0..9999, the element `CreateResponse` writes for a
+    `time.Time "generalized"` field (`ProducedAt`, `ThisUpdate`, `RevocationTime`, and inside `[0]` `NextUpdate`) is a
+    primitive universal GeneralizedTime whose content `encoding/asn1`'s `parseGeneralizedTime` (ZV.Model.Time, strict or
+    permissive) reads back as exactly that instant, in UTC. -/
+theorem ocsp_time_roundtrip (perm : Bool) (u : Int) (hy0 : 0 ≤ (utcTime u).year) (hy1 : (utcTime u).year ≤ 9999) :
+    ∃ body, timeRaw u = .ok (mkRaw 0 24 false body) ∧
+      ZV.Time.EA.parseTimeBody perm 24 body = .ok (utcTime u) := by
+  refine ⟨ZV.Time.genText (utcTime u), ?_, ?_⟩
+  · unfold timeRaw
+    rw [makeTimeBody_gen, timeTag_gen, ZV.Time.appendGeneralizedTime_eq (utcTime u) hy0 hy1]
+  · have := ZV.Time.parseGeneralizedTime_genText perm (utcTime u) hy0 hy1 (by simp [utcTime]) (by simp [utcTime])
+    rw [readBack_utcTime] at this
+    unfold ZV.Time.EA.parseTimeBody
+    rw [if_neg (by omega)]
+    exact this
+
+/-- … and outside those years `CreateResponse` fails (asn1.Marshal: "cannot represent time as GeneralizedTime") -/
+theorem ocsp_time_out_of_range (u : Int) (h : (utcTime u).year < 0 ∨ (utcTime u).year > 9999) : timeRaw u = .err := by
+  unfold timeRaw
+  rw [makeTimeBody_gen, ZV.Time.appendGeneralizedTime_err (utcTime u) h]
+
+/-- `NextUpdate`: `time.Time{}` is left out, everything else is `[0] { GeneralizedTime }` -/
+theorem ocsp_next_absent : nextRaw zeroTime = .ok (C18.zeroVal .raw) := by simp [nextRaw]
+
+/-- the status arms written by `CreateResponse` are exactly the template's status: `Good` ⇒ [0], `Unknown` ⇒ [2], and
+    the revoked arm [1] is present iff the status is `Revoked` and (RevokedAt, reason) is not the zero pair; any other
+    status writes NO arm (and reads back as `Revoked` at `time.Time{}` — `create_status_out_of_domain`) -/
+theorem ocsp_revoked_arm (t : RTemplate) (h : t.status ≠ 1 ∨ (t.revokedAt = zeroTime ∧ t.reason = 0)) :
+    revokedVal t = .ok (C18.zeroVal revokedInfoS) := by
+  have : ¬ (t.status = 1 ∧ ¬ (t.revokedAt = zeroTime ∧ t.reason = 0)) := by
+    rcases h with h | h
+    · exact fun x => h x.1
+    · exact fun x => x.2 h
+  unfold revokedVal
+  rw [if_neg this]
+
+/-- `CreateResponse` refuses exactly the issuer hashes outside the GENERATED `hashOIDs` (0 standing for SHA-1) -/
+theorem ocsp_create_unsupported_hash (t : RTemplate) (nh kh : Bytes)
+    (h : Gen.C13.hashOIDs.lookup (if t.hash = 0 then 3 else t.hash) = none) : singleVal t nh kh = .err := by
+  have := (hashOID_generated (if t.hash = 0 then 3 else t.hash)).1
+  simp only [singleVal, this, h]
+
+/-- the algorithm identifier written is the GENERATED OID of the algorithm `signingParams` answers with: for every key
+    kind and requested algorithm that is accepted, that OID exists, and `getSignatureAlgorithmFromOID` (first row with
+    the OID) maps it back to the same algorithm number -/
+theorem ocsp_sig_oid_written (k : KeyKind) (req h a : Nat) (hs : signingParams k req = .ok (h, a)) :
+    ∃ oid, sigOidOf a = some oid ∧
+      (Gen.C03.ocspDetailsOid.find? (fun r => r.2.1.map Int.ofNat == oid)).map (fun r => r.1) = some a := by
+  have hall : ∀ a, a ≤ 16 → (1 ≤ a ∧ a ≤ 12) → ∃ oid, sigOidOf a = some oid ∧
+      (Gen.C03.ocspDetailsOid.find? (fun r => r.2.1.map Int.ofNat == oid)).map (fun r => r.1) = some a := by decide
+  have hr : 1 ≤ a ∧ a ≤ 12 := by
+    have hrow : ∀ r ∈ sigDetails, 1 ≤ r.algo ∧ r.algo ≤ 12 := by decide
+    have hfind : ∀ (l : List SigRow) (q : Nat) (r : SigRow), findRow q l = some r → r ∈ l := by
+      intro l q r
+      induction l with
+      | nil => simp [findRow]
+      | cons x xs ih =>
+        simp only [findRow]
+        split
+        · intro e; cases e; simp
+        · intro e; exact List.mem_cons_of_mem _ (ih e)
+    unfold signingParams at hs
+    cases k <;> simp only [defaultParams] at hs <;> try (cases hs)
+    all_goals
+      split at hs
+      · cases hs; omega
+      · split at hs
+        · cases hs
+        · rename_i r hf
+          split at hs
+          · cases hs
+          · split at hs
+            · cases hs
+            · cases hs; exact hrow r (hfind _ _ _ hf)
+  exact hall a (by omega) hr
+
+/-- the hypotheses of the encoding theorems are satisfiable -/
+example : 0 ≤ (utcTime 1700000000).year ∧ (utcTime 1700000000).year ≤ 9999 := by decide
+example : (utcTime 253402300800).year > 9999 := by decide
+example : (RTemplate.mk 0 5 0 0 7 1 0 none).status ≠ 1 ∨ ((7 : Int) = zeroTime ∧ (1 : Int) = 0) := by decide
+example : Gen.C13.hashOIDs.lookup (if (4 : Nat) = 0 then 3 else 4) = none := by decide
+example : signingParams .p384 0 = .ok (6, 11) := by decide
+/-- on concrete values: a revoked response with reason 1, SHA-256 issuer hash, one extension, P-256 signer: the bytes exist -/
+example : (createResponse (RTemplate.mk 1 (-129) 1700000000 zeroTime 1600000000 1 5 (some [([2, 5, 29, 20], false, [1])])) [1, 2] [3] [0x30, 0x00] 946684800 .p256 0 [9, 9] none matches .ok _) = true := by decide
 
 end ZV.C13
